@@ -8,6 +8,9 @@ use multiqueue2::verif_hooks::rt;
 pub const MAXINST: usize = 24;
 /// scheduling-point kind of the payload hooks (continues the rt::K_* numbering)
 pub const K_PAYLOAD: u8 = 12;
+/// scheduling point inside the payload's destructor (a separate kind so that "inside Clone / view"
+/// windows do not also pay for every destructor)
+pub const K_PAYLOAD_DROP: u8 = 14;
 
 pub struct Table {
     pub next: usize,
@@ -136,7 +139,7 @@ impl Drop for Tok {
         // the destructor takes a while too: anything may run here; the memory being destroyed
         // must stay this value until the destructor returns
         let (id0, chk0) = (self.id, self.chk);
-        rt::point(K_PAYLOAD, self as *const Tok as usize);
+        rt::point(K_PAYLOAD_DROP, self as *const Tok as usize);
         assert!(
             self.inst == i && self.id == id0 && self.chk == chk0,
             "C05: a slot was overwritten while the value in it was being destroyed"
